@@ -94,12 +94,28 @@ def apply_observers(object, graphs, handler, *, dispatcher, remove=False):
         If True, remove notifiers. i.e. unobserve the traits. The default
         is False.
     """
-    for graph in graphs:
-        add_or_remove_notifiers(
-            object=object,
-            graph=graph,
-            handler=handler,
-            target=object,
-            dispatcher=dispatcher,
-            remove=remove,
-        )
+    done = []
+    try:
+        for graph in graphs:
+            add_or_remove_notifiers(
+                object=object,
+                graph=graph,
+                handler=handler,
+                target=object,
+                dispatcher=dispatcher,
+                remove=remove,
+            )
+            done.append(graph)
+    except Exception:
+        # Undo the graphs already handled, so that a failing call leaves
+        # nothing attached (or detached).
+        for graph in reversed(done):
+            add_or_remove_notifiers(
+                object=object,
+                graph=graph,
+                handler=handler,
+                target=object,
+                dispatcher=dispatcher,
+                remove=not remove,
+            )
+        raise
